@@ -228,4 +228,6 @@ def rule_commit(ctx):
 
 from props.C04 import rule_update_body  # noqa: E402  (aborted update must leave the stored version usable)
 
-RULES = [rule_process_object, rule_processors, rule_tasks_returned, rule_ca_task, rule_commit, rule_update_body]
+from props.C09 import rule_add_roa  # noqa: E402  (the documented prefix-length filter removes exactly what it documents)
+
+RULES = [rule_process_object, rule_processors, rule_tasks_returned, rule_ca_task, rule_commit, rule_update_body, rule_add_roa]
